@@ -85,7 +85,9 @@ func (s *Stash) Add(form Form) {
 	}
 	s.forms = append(s.forms, form.Dup())
 	if 0 < len(s.filename) {
+		verifCrash("stash.add.before-open")
 		f, err := os.OpenFile(s.filename, os.O_APPEND|os.O_CREATE|os.O_WRONLY, 0644)
+		verifCrash("stash.add.after-open")
 		if err == nil {
 			defer func() { _ = f.Close() }()
 			_, err = f.Write(append(form.Append(nil), '\n'))
@@ -93,6 +95,7 @@ func (s *Stash) Add(form Form) {
 		if err != nil {
 			panic(err)
 		}
+		verifCrash("stash.add.after-write")
 	}
 }
 
@@ -169,15 +172,18 @@ func (s *Stash) Clear(start, end int) {
 	if len(s.filename) == 0 {
 		return
 	}
+	verifCrash("stash.clear.before-open")
 	f, err := os.OpenFile(s.filename, os.O_TRUNC|os.O_APPEND|os.O_CREATE|os.O_WRONLY, 0644)
 	if err != nil {
 		panic(err)
 	}
+	verifCrash("stash.clear.after-open")
 	defer func() { _ = f.Close() }()
 	for _, frm := range s.forms {
 		if _, err = f.Write(frm.TabAppend(nil)); err != nil {
 			panic(err)
 		}
+		verifCrash("stash.clear.after-write")
 	}
 }
 
